@@ -71,5 +71,22 @@ def run(ctx):
         if n in F.fns:
             touches = {x.split(".")[-1] for y in ctx.bodies_of(n) for x in y.fn.fr + y.fn.fw if x.startswith(T + ".")}
             ctx.ob(f"{fn}|tracked-state-only", "substate_db" not in touches or fn == "remove_substate", f"{fn} touches Track fields {sorted(touches)}", F.fns[n].loc())
+    ctx.rule("T3 (limit counts returned keys): in MappedTrack::scan_keys the limit is compared with the number of keys already collected "
+             "(items.len()), never applied to the tracked entries before the presence filter — an `Iterator::take(limit)` on the raw tracked "
+             "entries lets removed / non-existent entries use up the limit and hides present writes that sort after them")
+    sk = [x for x in F.fns if re.search(r"MappedTrack as .*CommitableSubstateStore>::scan_keys$", x)]
+    ctx.ob("scan_keys|anchor", len(sk) == 1, f"scan_keys impls: {len(sk)}")
+    for x in sk[:1]:
+        bad = []
+        lens = 0
+        for b in ctx.bodies_of(x):
+            lens += len(b.calls(r"alloc::vec::Vec(<[^>]*>)?::len$"))
+            for bb, t in b.calls(r"Iterator(<[^>]*>)?::take$|::take$"):
+                recv = origin_names(b, t["args"][0])
+                if not any(re.search(r"::(filter|filter_map)$", r_) for r_ in recv):
+                    bad.append((b.name.rsplit("::", 1)[1], sorted(r_.rsplit("::", 1)[-1] for r_ in recv)))
+        ctx.ob("scan_keys|limit-after-presence-filter", not bad and lens >= 1,
+               f"limit tested against the collected keys ({lens} len() test(s)); no take() ahead of the presence filter" if not bad else
+               f"take() applied to unfiltered entries {bad}: absent tracked entries consume the limit", ctx.body(x).loc())
     ctx.assume("observational equivalence with 'database overlaid with writes' (merge order, limit counting in scans/drains, exact state-change "
                "diff) is value-level and NOT decided; only the precedence / who-reads clauses above are")
